@@ -16,7 +16,7 @@ class C40(vlib.Spec):
                 "C40_raft_lc_from_vote_invariant", "C40_raft_invariants_step", "C40_raft_invariants_reachable",
                 "C40_raft_leader_completeness", "C40_raft_commit_sound", "C40_raft_sms_all",
                 "C40_paxos_safety", "C40_paxos_recommit_obeys_pick", "C40_paxos_slot_reuse_refuted",
-                "C40_paxos_acceptor_refines"]
+                "C40_paxos_acceptor_refines", "C40_paxos_proposer_refines_if_reconciled_once"]
     crate, group, binary = "h_raft", "hydro", "h_raft"
     imports = "From HV Require Import Proto.RaftNet.\nFrom HV Require Proto.PaxosCheck."
     level = "proof"
